@@ -148,7 +148,7 @@ func TestAuthorizedKeysManPageExamples(t *testing.T) {
 		{"command=\"echo \\\"hi, you\\\"\",no-pty\t" + key, true, []string{"command=\"echo \\\"hi, you\\\"\"", "no-pty"}, ""},
 		{"command=\"unterminated " + key, false, nil, ""},
 		{"command=\"x\\\" " + key, false, nil, ""}, // the closing quote is escaped
-		{"ssh-rsa " + katPub, false, nil, ""},       // declared type differs from blob type
+		{"ssh-rsa " + katPub, false, nil, ""},      // declared type differs from blob type
 		{"ssh-foo " + katPub, false, nil, ""},
 		{ED25519 + " " + katPub[:len(katPub)-4] + " c", false, nil, ""}, // truncated blob
 		{"  \t" + ED25519 + " \t " + katPub + "   two words  ", true, nil, "two words"},
